@@ -376,6 +376,14 @@ type vf34ReqOpts struct {
 	FBAttributes int // number of fallback attributes to drop (0 = well-formed)
 	BadNotaryWit bool
 	EmptyInvoker bool
+
+	// additions of the C34 monitor
+	AttrMode       int  // 0 one NotaryAssisted; 1 NotaryAssisted + HighPriority; 2 a single attribute of another type
+	AlphaSigner    bool // signer #1 is a foreign account (witness #1 still carries the alphabet script)
+	AlphaWitness   bool // witness #1 carries a foreign verification script (signer #1 still the alphabet account)
+	ExtraSigner    bool // one more signer than witnesses
+	NotaryInvocBad bool // notary placeholder with a non-dummy invocation script
+	FBNoNVB        bool // fallback with three attributes none of which is NotValidBefore
 }
 
 var vf34DummySig = append([]byte{byte(opcode.PUSHDATA1), 64}, make([]byte, 64)...)
@@ -433,6 +441,34 @@ func vf34Request(rng *rand.Rand, committee keys.PublicKeys, proxy util.Uint160, 
 	if o.NoAttribute {
 		tx.Attributes = nil
 	}
+	switch o.AttrMode {
+	case 1:
+		tx.Attributes = append(tx.Attributes, transaction.Attribute{Type: transaction.HighPriority})
+	case 2:
+		tx.Attributes = []transaction.Attribute{{Type: transaction.NotValidBeforeT, Value: &transaction.NotValidBefore{Height: 1}}}
+	}
+	if o.AlphaSigner {
+		tx.Signers[1].Account = vf34Key(rng).GetScriptHash()
+	}
+	if o.AlphaWitness {
+		fm, err := smartcontract.CreateMultiSigRedeemScript(len(cm)*2/3+1, func() keys.PublicKeys {
+			var l keys.PublicKeys
+			for range cm {
+				l = append(l, vf34Key(rng).PublicKey())
+			}
+			return l
+		}())
+		if err != nil {
+			panic(err)
+		}
+		tx.Scripts[1].VerificationScript = fm
+	}
+	if o.ExtraSigner {
+		tx.Signers = append(tx.Signers, transaction.Signer{Account: vf34Key(rng).GetScriptHash(), Scopes: transaction.None})
+	}
+	if o.NotaryInvocBad {
+		tx.Scripts[len(tx.Scripts)-1].InvocationScript = append([]byte{byte(opcode.PUSHDATA1), 64}, vf34RandBytes(rng, 64)...)
+	}
 
 	fb := transaction.New([]byte{byte(opcode.RET)}, 0)
 	fb.Nonce = tx.Nonce
@@ -447,6 +483,9 @@ func vf34Request(rng *rand.Rand, committee keys.PublicKeys, proxy util.Uint160, 
 		{Type: transaction.ConflictsT, Value: &transaction.Conflicts{Hash: tx.Hash()}},
 	}
 	fb.Attributes = fb.Attributes[min(o.FBAttributes, 3):]
+	if o.FBNoNVB {
+		fb.Attributes[0] = transaction.Attribute{Type: transaction.ConflictsT, Value: &transaction.Conflicts{Hash: util.Uint256{0x34}}}
+	}
 	fb.Scripts = []transaction.Witness{
 		{InvocationScript: slices.Clone(vf34DummySig)},
 		{InvocationScript: slices.Clone(realSig), VerificationScript: invoker.PublicKey().GetVerificationScript()},
@@ -651,9 +690,24 @@ func vf34NewNode(t testing.TB, rng *rand.Rand, ch *vf34Chain, o vf34NodeOpts) *v
 	return n
 }
 
+// vf34AcceptAll is the node validator of the fixture: it accepts every candidate except
+// those that carry the attribute VerifReject.
 type vf34AcceptAll struct{}
 
-func (vf34AcceptAll) Verify(sdknetmap.NodeInfo) error { return nil }
+func (vf34AcceptAll) Verify(ni sdknetmap.NodeInfo) error {
+	if ni.Attribute("VerifReject") != "" {
+		return errors.New("verif: candidate rejected by the scripted validator")
+	}
+	return nil
+}
+
+func vf34RandBytes(rng *rand.Rand, n int) []byte {
+	b := make([]byte, n)
+	for i := range b {
+		b[i] = byte(rng.UintN(256))
+	}
+	return b
+}
 
 func (n *vf34Node) close() { verifhook.SetMorph(nil) }
 
